@@ -6,6 +6,7 @@ pub mod attr;
 pub mod c01_image;
 pub mod c02_total;
 pub mod ideal;
+pub mod iofault;
 pub mod c03_clip;
 pub mod scene;
 pub mod c04_cover;
